@@ -31,6 +31,8 @@ KINDS = (
     "non_json_200",  # 10: 200 with an HTML body
     "reset_on_read",  # 11: ECONNRESET while reading the reply
     "err_404_length",  # 12: 404 with Content-Length: 0
+    "no_content_204",  # 13: 204 No Content (bodiless by definition), keep-alive
+    "created_201_empty",  # 14: 201 with Content-Length: 0
 )
 
 
@@ -220,6 +222,10 @@ class ScriptedSocket(object):
             self.eof = True
         elif kind == 12:
             self.stream += response(404, "Not Found", ["Content-Length: 0"], b"")
+        elif kind == 13:
+            self.stream += response(204, "No Content", [], b"")
+        elif kind == 14:
+            self.stream += response(201, "Created", ["Content-Length: 0"], b"")
         else:
             # 2 (refuse) and 4 (reset) are consumed at connect / first send; if they
             # come up here (mid-connection) the peer simply drops the connection
@@ -296,7 +302,7 @@ def h_faults(shape, L):
             else:
                 ex = outcome[1]
                 if isinstance(ex, jsonrpc.TransportError):
-                    statuses = {5: 500, 6: 503, 7: 500, 12: 404}
+                    statuses = {5: 500, 6: 503, 7: 500, 12: 404, 13: 204, 14: 201}
                     allowed = [statuses[k] for k, _ in mine if k in statuses]
                     if ex.errcode not in allowed:
                         return 2
@@ -304,8 +310,11 @@ def h_faults(shape, L):
                         return 3
                     if ex.url is None or ex.errcode is None:
                         return 4
-                elif [k for k, _ in mine if k in (5, 6, 7, 12)] and mine[-1][0] in (5, 6, 7, 12):
-                    # the last thing the peer said was a non-200 status: TransportError expected
+                elif (mine and mine[-1][0] in (5, 6, 7, 12, 13, 14)
+                      and not isinstance(ex, (http.client.HTTPException, OSError))):
+                    # the last thing the peer said was a non-200 status: TransportError expected.
+                    # (A connection-state error -- the previous, bodiless reply was never consumed --
+                    # is the one tolerated failure after a fault and is accounted for below.)
                     return 5
             if script_done_before:
                 if outcome[0] == "exc":
